@@ -390,7 +390,7 @@ def run(prop, tier):
     ]
     C.import_auditok()
     from ..py2coq import misctie
-    ties = [misctie.tie_group("region"), misctie.tie_group("algebra")] + ([misctie.tie_group("silence")] if prop == "C17" else [])
+    ties = [misctie.tie_group("region"), misctie.tie_group("algebra")] + ([misctie.tie_group("silence"), misctie.tie_group("div")] if prop == "C17" else [])
     proof["tie_obligations"] = [o for t in ties for o in t["obligations"]]
     proof["undischarged"] = [o for t in ties if not t["ok"] for o in t["obligations"]]
     with warnings.catch_warnings():
